@@ -51,8 +51,9 @@ func storeIdentity(ctx sdk.Context) (id uintptr) {
 // RunReplaySharded is graph.RunReplay for star-shaped graphs (few states, a large operation alphabet):
 // the generic walker shards by sub-tree, which leaves all the work of the initial state to one process;
 // here every process replays the whole graph restricted to ITS share of the alphabet (shardKey(op) == ""
-// keeps an operation in every process, e.g. the ones that lead to other states).  Output files are those of
-// graph.RunReplay.
+// keeps an operation in every process, e.g. the ones that lead to other states).  With shardKey == nil the
+// generic sharding is used.  In both modes every executed real transition is recorded for TLC.  Output files
+// are those of graph.RunReplay.
 func RunReplaySharded(t *testing.T, ad graph.Adapter, root sdk.Context, shardKey func(op graph.Op) string) {
 	g, err := graph.Load(os.Getenv("VERIF_EDGES"))
 	if err != nil {
@@ -63,7 +64,8 @@ func RunReplaySharded(t *testing.T, ad graph.Adapter, root sdk.Context, shardKey
 	}
 	shard, shards := envInt("VERIF_SHARD", 0), envInt("VERIF_SHARDS", 1)
 	full := len(g.Alphabet)
-	if shards > 1 {
+	byState := shardKey == nil // graphs with many states: the generic walker's sharding by sub-tree
+	if shards > 1 && !byState {
 		var mine []graph.Op
 		for _, op := range g.Alphabet {
 			if k := shardKey(op); k == "" || ShardOf(k, shards) == shard {
@@ -104,7 +106,7 @@ func RunReplaySharded(t *testing.T, ad graph.Adapter, root sdk.Context, shardKey
 	}
 	st, err := graph.Replay(ad, root, g, graph.Options{AfterEdge: after,
 		ExploreDepth: envInt("VERIF_EXPLORE", 0), ExploreBudget: envInt("VERIF_EXPLORE_BUDGET", 2000), MaxDeviations: envInt("VERIF_MAXDEV", 3), TraceOut: out,
-		Shard: 0, Shards: 1, RejSample: envInt("VERIF_REJ_SAMPLE", 0), Seed: int64(envInt("VERIF_SEED", 1)), KeepOkTraces: 0,
+		Shard: map[bool]int{true: shard, false: 0}[byState], Shards: map[bool]int{true: shards, false: 1}[byState], RejSample: envInt("VERIF_REJ_SAMPLE", 0), Seed: int64(envInt("VERIF_SEED", 1)), KeepOkTraces: 0,
 	})
 	res := map[string]any{
 		"graph_states": len(g.Out), "graph_ok_edges": g.N, "alphabet": full, "alphabet_here": len(g.Alphabet),
